@@ -171,6 +171,9 @@ func monitor(w *world, op Op, r result, b, a *snap) (out []finding) {
 			if a.vals[i].Shares.Cmp(recv) == 0 {
 				sig += ":all-validator-shares"
 			}
+			if op.Kind == "mint" && mintLossExplained(b.vals[i], a.vals[i], moved, new(big.Int).Neg(diff)) {
+				sig = "staked-value-changed:mint:unbond-truncation-reprices-remaining-shares"
+			}
 			add("conversion-keeps-user-value", sig, fmt.Sprintf("user %d validator %d: value %s -> %s (%s %s)", u, i, vb, va, op.Kind, op.Amt))
 		}
 		// guards
@@ -220,6 +223,33 @@ func monitor(w *world, op Op, r result, b, a *snap) (out []finding) {
 		}
 	}
 	return
+}
+
+// mintLossExplained is the classifier of the known finding "a mint can cost three base units"
+// (Properties/C12.v C12_value_two_units_refuted, C12_value_loss_by_share_price): Unbond
+// truncates less than one token, the mint floors less than one received share, and a share is
+// worth at most c = ceil(tokens * 10^18 / shares) tokens AFTER the mint; the theorem bounds the
+// loss by c + 1 when the mint does not convert every share of the validator and the validator
+// holds at most 10^18 tokens.  A loss above two units is the known finding exactly when that
+// formula explains it (so c >= 2: the shares left behind were repriced above one token);
+// anything else keeps the generic signature and is a violation.
+func mintLossExplained(vb, va valSnap, moved, loss *big.Int) bool {
+	if !vb.Exists || !va.Exists || va.Shares.Sign() <= 0 || loss.Cmp(big.NewInt(3)) < 0 {
+		return false
+	}
+	if moved.Cmp(vb.Shares) == 0 || vb.Tokens.Cmp(prec) > 0 {
+		return false
+	}
+	// c = ceil(T * 10^18 / S) after the mint
+	num := new(big.Int).Mul(va.Tokens, prec)
+	c, m := new(big.Int).QuoRem(num, va.Shares, new(big.Int))
+	if m.Sign() != 0 {
+		c.Add(c, big.NewInt(1))
+	}
+	if c.Sign() <= 0 {
+		c.SetInt64(1)
+	}
+	return loss.Cmp(new(big.Int).Add(c, big.NewInt(1))) <= 0
 }
 
 func custodyInvariance(w *world, op Op, base *tallyOut) *finding {
